@@ -2,9 +2,9 @@
 import multiprocessing as mp
 
 
-def stall_demo(size, q):
-    """the real sendloop with one request of `size` data bytes; reports
-    whether the loop handed control back to the event loop"""
+def stall_demo(sizes, q):
+    """the real sendloop with requests of the given data sizes queued at
+    once; reports whether the loop handed control back to the event loop"""
     import asyncio
     from ebpfcat.ethercat import ECCmd, EtherCat
 
@@ -17,8 +17,9 @@ def stall_demo(size, q):
         async def pp(dgrams, packet):
             shipped.append(len(dgrams))
         ec.process_packet = pp
-        fut = asyncio.get_event_loop().create_future()
-        ec.send_queue.put_nowait((ECCmd.FPRD, bytes(size), 0, 1, 2, fut))
+        for size in sizes:
+            fut = asyncio.get_event_loop().create_future()
+            ec.send_queue.put_nowait((ECCmd.FPRD, bytes(size), 0, 1, 2, fut))
         task = asyncio.ensure_future(ec.sendloop())
         for _ in range(5):
             await asyncio.sleep(0)
@@ -28,20 +29,26 @@ def stall_demo(size, q):
 
 
 def replay_stall(name, conc, notes):
-    size = 1473
-    q = mp.get_context("fork").Queue()
-    p = mp.get_context("fork").Process(target=stall_demo, args=(size, q))
-    p.start()
-    p.join(3)
-    stalled = p.is_alive()
-    if stalled:
-        p.kill()
-        p.join()
-    return {"inputs": {"request_data_bytes": size},
-            "reproduced": stalled,
-            "detail": f"real sendloop with one request of {size} data bytes (does not fit an empty frame): "
-                      + ("the loop never returned to the event loop within 3 s (busy loop, master stalled)"
-                         if stalled else f"the loop stayed responsive: {q.get() if not q.empty() else ''}")}
+    """a request that does not fit an empty frame, alone and queued behind /
+    in front of ordinary requests (the pending-request path of the loop)"""
+    tried = []
+    for sizes in ([1473], [10, 1473], [1473, 10], [700, 700, 1473, 10]):
+        q = mp.get_context("fork").Queue()
+        p = mp.get_context("fork").Process(target=stall_demo, args=(sizes, q))
+        p.start()
+        p.join(3)
+        stalled = p.is_alive()
+        if stalled:
+            p.kill()
+            p.join()
+            return {"inputs": {"request_data_bytes": sizes},
+                    "reproduced": True,
+                    "detail": f"real sendloop with requests of {sizes} data bytes queued at once (1473 does not "
+                              f"fit an empty frame): the loop never returned to the event loop within 3 s "
+                              f"(busy loop, master stalled)"}
+        tried.append((sizes, q.get() if not q.empty() else ""))
+    return {"inputs": {"request_data_bytes": [t[0] for t in tried]}, "reproduced": None,
+            "detail": f"the loop stayed responsive in every scenario tried: {tried}"}
 
 
 def verify(rep):
